@@ -289,6 +289,9 @@ def c14_items(tier: str, seed: int):
     kinds.append(("mixed4", [("A", "10", None), ("B", None, "Zed"), ("C", "3", None), ("D", None, "b")]))
     kinds.append(("case3", [("a", "1", None), ("B", "2", None), ("C", "3", "é")]))
     kinds.append(("prefix3", [("A", "1", "ab"), ("B", "2", "a"), ("C", "3", "abc")]))
+    kinds.append(("dupname3", [("A", "1", "n"), ("B", "2", "n"), ("C", "3", None)]))
+    kinds.append(("dupname_ident3", [("A", "4", "B"), ("B", "5", None), ("C", "-1", None)]))
+    kinds.append(("minus_one4", [("A", "-1", None), ("B", "-5", None), ("C", None, None), ("D", "0", None)]))
     if tier != "quick":
         kinds.append(("explicit5", [("A", "1", None), ("B", "2", None), ("C", "3", None), ("D", "40", None), ("E", "50", None)]))
         kinds.append(("mixed5", [("A", None, "x"), ("B", "7", None), ("C", None, None), ("D", "2", "A"), ("E", None, None)]))
